@@ -4,6 +4,7 @@ Shape (I): one add from an arbitrary bit array; glue steps for export/load, unio
 from .. import env
 
 PROPERTY = "C01"
+CROSS_CHECK = True      # thorough: dumped assertion queries are re-decided by z3 4.8.12 and cvc5 1.0
 LEVEL = "model_checking"
 STUBS = ["array -> SymArray('B')", "bytes/bytearray/int/bin/hexlify/unhexlify/str/BytesIO shadows in probables.blooms.bloom",
          "Struct class attributes -> SymStruct", "hash_function -> dictionary key -> symbolic 64-bit vector"]
@@ -180,6 +181,32 @@ def expanding(ctx, cfg):
     ctx.check(len(f._blooms) in (L, L + 1), "expanding-grows-by-at-most-one")
 
 
+def expanding_load(ctx, cfg):
+    """expanding / rotating filter with a supplied (hand-written) strategy: a key added through add(key) is still reported by
+    check(key) / `in` after export -> frombytes, and after a further add on the loaded filter"""
+    env.setup(ctx, "bloom", "expanding")
+    from probables import ExpandingBloomFilter, RotatingBloomFilter, BloomFilter
+    est, fpr, L = cfg["est"], cfg["fpr"], cfg["L"]
+    table = {}
+    hf = lambda key, depth=1: table[key][:depth]  # noqa: E731
+    rot = cfg.get("rot", False)
+    f = RotatingBloomFilter(est, fpr, max_queue_size=4, hash_function=hf) if rot else ExpandingBloomFilter(est, fpr, hash_function=hf)
+    while len(f._blooms) < L:
+        f._blooms.append(BloomFilter(est_elements=est, false_positive_rate=fpr, hash_function=hf))
+    for i, b in enumerate(f._blooms):
+        for j in range(b.bloom_length):
+            b._bloom[j] = ctx.bits(f"f{i}cell{j}", 8)
+        b._els_added = ctx.int(f"cnt{i}", 0, est)
+    k, m = f._blooms[0].number_hashes, f._blooms[0].number_bits
+    table["old"], table[b"new"] = hv(ctx, "old", k, m), hv(ctx, "new", k, m)
+    ctx.assume(f.check("old") is True)
+    blob = env.export_bytes(ctx, f)
+    g = RotatingBloomFilter.frombytes(blob, max_queue_size=4, hash_function=hf) if rot else ExpandingBloomFilter.frombytes(blob, hash_function=hf)
+    ctx.check(g.check("old") is True and ("old" in g) is True, "load-keeps-key")
+    g.add(b"new")
+    ctx.check(g.check("old") is True and g.check(b"new") is True, "load-then-add")
+
+
 def history(ctx, cfg):
     """(H) companion: n adds from the freshly constructed filter, no invariant: every key present at the end and after each add"""
     env.setup(ctx, "bloom")
@@ -198,7 +225,7 @@ def history(ctx, cfg):
 
 
 HARNESS = {"c01.step": step, "c01.decide": absent_stays_decidable, "c01.wrappers": wrappers, "c01.load": load,
-           "c01.union": union, "c01.expanding": expanding, "c01.history": history}
+           "c01.union": union, "c01.expanding": expanding, "c01.history": history, "c01.expanding_load": expanding_load}
 
 
 def jobs(tier):
@@ -222,6 +249,10 @@ def jobs(tier):
             for op, force in (("add", False), ("add", True), ("push", False)):
                 js.append({"h": "c01.expanding", "cfg": {"est": est, "fpr": fpr, "L": L, "op": op, "force": force},
                            "opts": {"cost": L * est}})
+    for est, fpr in [(1, .5), (2, .3), (3, .28)]:
+        for L in (1, 2):
+            for rot in (False, True):
+                js.append({"h": "c01.expanding_load", "cfg": {"est": est, "fpr": fpr, "L": L, "rot": rot}, "opts": {"cost": L * est}})
     if tier == "thorough":
         js.append({"h": "c01.load", "cfg": {"est": 10, "fpr": .05, "channel": "bytes"}})
         js.append({"h": "c01.union", "cfg": {"est": 10, "fpr": .05}})
